@@ -156,6 +156,7 @@ func rewrite(name string, src []byte) ([]byte, bool, error) {
 		}
 		return true
 	})
+	rewriteRecv(f, shimIdent, &needShim, &changed)
 	rewriteGo(f, shimIdent, &needShim, &changed)
 	if !changed {
 		return nil, false, nil
@@ -201,6 +202,108 @@ func rewrite(name string, src []byte) ([]byte, bool, error) {
 		return nil, false, err
 	}
 	return buf.Bytes(), true, nil
+}
+
+// rewriteRecv turns channel receives that are not select cases into calls of the shim's polling receive:
+// `<-ch` in an expression position becomes shim.Recv1(ch), `v, ok := <-ch` / `v, ok = <-ch` becomes shim.Recv(ch).
+// (`for range ch` cannot be told from ranging over a slice without type information and is left alone.)
+func rewriteRecv(f *ast.File, shim string, needShim, changed *bool) {
+	call := func(name string, ch ast.Expr) ast.Expr {
+		*needShim = true
+		*changed = true
+		return &ast.CallExpr{Fun: &ast.SelectorExpr{X: ast.NewIdent(shim), Sel: ast.NewIdent(name)}, Args: []ast.Expr{ch}}
+	}
+	isRecv := func(e ast.Expr) (ast.Expr, bool) {
+		for {
+			p, ok := e.(*ast.ParenExpr)
+			if !ok {
+				break
+			}
+			e = p.X
+		}
+		if u, ok := e.(*ast.UnaryExpr); ok && u.Op == token.ARROW {
+			return u.X, true
+		}
+		return nil, false
+	}
+	one := func(slot *ast.Expr) {
+		if *slot == nil {
+			return
+		}
+		if ch, ok := isRecv(*slot); ok {
+			*slot = call("Recv1", ch)
+		}
+	}
+	var visit func(n ast.Node)
+	visit = func(n ast.Node) {
+		ast.Inspect(n, func(x ast.Node) bool {
+			switch v := x.(type) {
+			case *ast.CommClause:
+				// the communication of a select case stays a communication; its body is ordinary code
+				for _, st := range v.Body {
+					visit(st)
+				}
+				return false
+			case *ast.AssignStmt:
+				if len(v.Rhs) == 1 && len(v.Lhs) == 2 {
+					if ch, ok := isRecv(v.Rhs[0]); ok {
+						v.Rhs[0] = call("Recv", ch)
+						return true
+					}
+				}
+				for i := range v.Rhs {
+					one(&v.Rhs[i])
+				}
+			case *ast.ValueSpec:
+				if len(v.Values) == 1 && len(v.Names) == 2 {
+					if ch, ok := isRecv(v.Values[0]); ok {
+						v.Values[0] = call("Recv", ch)
+						return true
+					}
+				}
+				for i := range v.Values {
+					one(&v.Values[i])
+				}
+			case *ast.ExprStmt:
+				one(&v.X)
+			case *ast.ReturnStmt:
+				for i := range v.Results {
+					one(&v.Results[i])
+				}
+			case *ast.CallExpr:
+				for i := range v.Args {
+					one(&v.Args[i])
+				}
+			case *ast.BinaryExpr:
+				one(&v.X)
+				one(&v.Y)
+			case *ast.IfStmt:
+				one(&v.Cond)
+			case *ast.SwitchStmt:
+				one(&v.Tag)
+			case *ast.SendStmt:
+				one(&v.Value)
+			case *ast.KeyValueExpr:
+				one(&v.Value)
+			case *ast.CompositeLit:
+				for i := range v.Elts {
+					one(&v.Elts[i])
+				}
+			case *ast.IndexExpr:
+				one(&v.Index)
+			case *ast.UnaryExpr:
+				if v.Op != token.ARROW {
+					one(&v.X)
+				}
+			case *ast.StarExpr:
+				one(&v.X)
+			}
+			return true
+		})
+	}
+	for _, d := range f.Decls {
+		visit(d)
+	}
 }
 
 // rewriteGo turns `go f(a, b)` into `{ a0, b0 := a, b; shim.Go(func() { f(a0, b0) }) }`
